@@ -1,21 +1,33 @@
 """C01 — exhaustive, duplicate-free enumeration of expression trees."""
 from checks import genjobs
+from vlib import deductive as D
+from contracts import c_generator
 
 META = {
-    "level": "exploration",
-    "text": "Bounded stand-in on the real generation code: (i) get_allowed_shapes(n) equals the independently enumerated Łukasiewicz-valid arity "
+    "level": "other",
+    "text": "Deductive (unbounded): generator.check_tree is verified from its AST for arity strings of any length (nested loop invariants, ghost stack of the binary "
+            "nodes whose right child is missing): success <=> the Lukasiewicz condition (every proper prefix needs at least one more node, the whole string none), and on "
+            "success every non-leaf node points to existing later nodes (left[k] = k+1, k < right[k] < n) -- which is the precondition under which node_to_string is verified "
+            "(C02). That the Lukasiewicz condition characterises the arity strings of unary-binary trees is the classical bridge lemma (assumed; the oracle of the bounded part "
+            "enumerates by the same condition and is cross-checked against tree counts 1,1,2,4,9,21,51,127). get_allowed_shapes, shape_to_functions and generate_equations "
+            "are not under contract. Bounded stand-in on the real generation code (not counted as proved): (i) get_allowed_shapes(n) equals the independently enumerated Łukasiewicz-valid arity "
             "strings and check_tree decides validity of every arity string (exhaustive up to the stated n); (ii) the tree list written by "
             "generation equals, as a multiset, the independent enumeration of all labelled trees over the basis, for the six shipped bases and "
             "random sub-bases (through the ESR_VERIF hook) up to the stated complexity; line counts of all per-function files agree. "
-            "The deductive contracts planned for check_tree / get_allowed_shapes / shape_to_functions are not discharged yet, so nothing is claimed as proved.",
+            "",
     "note": "Bounded: complexities and bases listed in evidence.coverage.bounded. Oracle: /verif/harness/oracle.py (need-counter validity, itertools enumeration), independent of the code under test.",
-    "technique": "bounded stand-in of the contract (exhaustive enumeration against an independent oracle) on the real code; deductive part pending",
+    "technique": "contract-based deductive verification of check_tree (AST->VC->SMT, ghost stack) + bounded stand-in (exhaustive enumeration against an independent oracle)",
 }
 CHECKER = "./bin/check C01"
 
 
 def check(run):
     tier = run.tier
+    dst, dfailed, deng = D.verify_function(run, "generation/generator.py", "check_tree", c_generator.check_tree_contract, timeout_ms=10000,
+                                           note="nested loops cut at invariants; ghost stack and ghost position function; records as struct of arrays")
+    if dst != "unsupported" and D.canary(run, "generation/generator.py", "check_tree", c_generator.check_tree_contract) is False:
+        raise RuntimeError("canary verified: engine vacuous on check_tree")
+    run.trust("pyvc", "z3 5.1.0")
     run.assume("bridge lemma: need-counter validity <=> preorder arity sequence of exactly one unary-binary tree (classical; used by the oracle)",
                "A-hash: PYTHONHASHSEED fixed to 0 in harness runs")
     nshape = 9 if tier == "quick" else 11
@@ -42,5 +54,8 @@ def check(run):
                           "generation for %s at complexity %d: %s" % (f["job"].get("basis", f["job"]["runname"]), f["job"]["n"], f["error"][:800]),
                           {"harness": "rt_gen.py", "payload": {"mode": "c01", "jobs": [f["job"]]}, "fresh_copy": True})
     run.sample({"libraries": [[g[0]["runname"], g[-1]["n"]] for g in groups]})
-    return run.finish("exploration", META["text"], CHECKER,
+    if dfailed and not run.violations:
+        from checks.C14 import report_unproved
+        report_unproved(run, dfailed, False, "generator.check_tree")
+    return run.finish("other", META["text"], CHECKER,
                       rule="cases = libraries generated + arity strings decided; distinct_nontrivial = distinct labelled trees compared with the oracle")
